@@ -156,7 +156,22 @@ class Interp:
             self.stop = True
             return
         want = {self.handles[t] for t in self.alive()}
-        if got != want:
+        same = got == want
+        if same and isinstance(got, set):
+            # what the caller does with the returned collection is the caller's business
+            got.clear()
+            try:
+                again = self.factory.all_task_handles()
+            except Exception as exc:
+                self.disc("all_task_handles-raises", f"{where}: all_task_handles() raised {short_exc(exc)}")
+                self.stop = True
+                return
+            if again != want:
+                self.disc("handles:result-aliases-registry", f"{where} (t={now()}): after the caller emptied the set returned by "
+                          f"all_task_handles(), the next call lists {len(again)} task(s) although {len(want)} spawned task(s) have not finished")
+                self.stop = True
+                return
+        if not same:
             inv = {id(h): t for t, h in self.handles.items()}
             g = sorted(inv.get(id(h), "phantom") for h in got) if all(id(h) in inv for h in got) else [inv.get(id(h), "phantom") for h in got]
             w = sorted(inv[id(h)] for h in want)
@@ -361,6 +376,10 @@ class Interp:
             class _Handler:  # a callable object is as good a handler as a function
                 def __call__(self, exc: Exception) -> Any:
                     return handler(exc)
+
+                if len(case["ops"]) % 4 == 3:
+                    def __len__(self) -> int:  # ... even one whose truth value is False (an error collector that is still empty)
+                        return 0
             handler_obj = _Handler()
         kwargs = {} if hk == "absent" else {"exception_handler": handler_obj}
         cancelled_cls = anyio.get_cancelled_exc_class()
